@@ -176,7 +176,8 @@ func init() {
 
 		c.Phase("hashes-with-template-bytes") // key hashes that contain, at every offset, the byte values of the opcodes and the push length of the P2PKH template itself
 		n := uint64(0)
-		for _, pat := range [][]byte{{0x88, 0xac}, {0x76, 0xa9}, {0xa9, 0x14}, {0x14}, {0x88}, {0xac}, {0x6a}, {0x00, 0x63}, {0x4c}, {0x4e}} {
+		for _, pat := range [][]byte{{0x88, 0xac}, {0x76, 0xa9}, {0xa9, 0x14}, {0x14}, {0x88}, {0xac}, {0x6a}, {0x00, 0x63}, {0x4c}, {0x4e},
+			{0x00, 0x63, 0x03, 'o', 'r', 'd'}, {0x03, 'o', 'r', 'd', 0x51}, {0x00, 0x6a}, {0x51, 0xae}, {0x21, 0x02}, {0xa9, 0x14, 0x87}} { // ... and the marker bytes of the other templates (inscription envelope, data carrier, multisig, P2PK, P2SH)
 			for off := 0; off+len(pat) <= 20; off++ {
 				n++
 				if !c.Case(n) {
